@@ -131,6 +131,10 @@ def run_units_kani(units, tier, work, only_props=None, tag='k'):
     fcntl.flock(lock, fcntl.LOCK_EX)
     try:
         from .verus import run_group
+        # shared target dir: refresh the mtimes inside the critical section, strictly after the previous holder's outputs,
+        # so that a crate built from ANOTHER tree is never taken for fresh (see vlib/native.py)
+        time.sleep(1.1)
+        subprocess.run(['find', dst, '-name', '*.rs', '-exec', 'touch', '{}', '+'], check=False)
         try:
             p = run_group(cmd, cwd=dst, env=env, timeout=tmo)
             out = p.stdout + '\n' + p.stderr
